@@ -164,6 +164,8 @@ Section Single.
     wf r = true /\ forall e, good e -> meval e r = bop k (atom_eval e a) (atom_eval e b).
   Proof.
     unfold merge_single. intros H Oa Ob.
+    destruct (atom_eqb a b) eqn:Eab.
+    { injection H as <-. apply atom_eqb_eq in Eab. subst b. split; [exact Oa|]. intros e _. cbn [meval]. destruct k; cbn [bop]; [rewrite andb_diag | rewrite orb_diag]; reflexivity. }
     destruct (rev_in a || rev_in b) eqn:Rab; [discriminate H|]. apply orb_false_elim in Rab as [Ra Rb].
     destruct (pyver_pair (a_name a) (a_name b)); [eapply vmerge_sound; eauto|].
     destruct (str_eqb_spec (a_name a) (a_name b)) as [En|]; [|discriminate]. cbn [negb] in H.
